@@ -504,6 +504,8 @@ class Project:
                     x = self.ev(m, e.value, env)
                     if isinstance(x, (list, tuple)):
                         out.extend(x)
+                    elif isinstance(x, dict):
+                        out.extend(x.keys())
                     else:
                         return UNK
                 else:
@@ -565,6 +567,8 @@ class Project:
                     x = self.ev(m, a.value, env)
                     if isinstance(x, (list, tuple)):
                         args.extend(x)
+                    elif isinstance(x, dict):
+                        args.extend(x.keys())  # iterating a dict yields its keys
                     else:
                         args.append(UNK)
                 else:
